@@ -23,6 +23,8 @@ import json
 from automata.fa.nfa import NFA
 
 from harness import gen
+from harness import names_xtype as X
+from harness import nfa_mutable as M
 from harness import nfaops_lib as L
 from harness.common import Ctx, Names, call, nfa_iso
 
@@ -32,7 +34,13 @@ RULE = ("cases = (operation, valid NFA operand(s)); corpus of past defects (F6, 
         "empty language with a single non-final state, universal, disjoint / overlapping alphabets, overlapping "
         "names, ε-only, states without rows, empty target sets, rows keyed by non-states; live 'dense' operands and "
         "operands with extra final states so that about half of the results are non-empty; the SAME OBJECT on both "
-        "sides (A + A, A & A, …) exhaustively for small A and at random; empty-alphabet operands) and random expression "
+        "sides (A + A, A & A, …) exhaustively for small A and at random; empty-alphabet operands; round 4: state names "
+        "EQUAL ACROSS TYPES — naturals written as float / Fraction / Decimal / complex / bool, single-type and mixed pools, "
+        "with gaps — under all operations and in compositions; the mutable-automata option: live operands built under "
+        "allow_mutable_automata=True from plain / ALIASED (one set object for equal target sets, final_states is states, "
+        "shared rows) / copied containers, SEQUENCES of 3–8 operations and reads on the same objects incl. earlier "
+        "results, operands that use few target sets in many places under the quotients, every result judged against the "
+        "definitions AS BUILT) and random expression "
         "trees of depth ≤3 whose intermediate real results are fed back as operands; a case is non-trivial when "
         "every operand has ≥2 states and the result language is neither empty nor universal up to the word "
         "bound; distinct = distinct (operation, operand definitions)")
@@ -41,6 +49,13 @@ ASSUMPTIONS = [
     "Python set/dict semantics are modelled (lists / association lists); the iteration order of the operand "
     "state sets is sent to the model (it determines the names chosen by _get_state_maps)",
     "isinstance(other, NFA) tests and the global option should_validate_automata=False are outside the model",
+    "mutable-automata option (round 4): allow_mutable_automata=True only changes the container types the constructor "
+    "stores; the property is read as 'the result has the textbook language of the definitions the operands were built "
+    "with, whatever was called on the objects before' — judged against frozen twins; the model is asked only while the "
+    "live operands still have those definitions (stat mutable_option_definition_changed otherwise)",
+    "names equal across types (round 4): 0, 0.0, False, Fraction(0), Decimal(0), 0j are one key of a Python set; the "
+    "wire format sends every such name as the natural number it equals (nfaops_lib.nat_of), which is how the model's "
+    "first-unused-natural search sees it",
 ]
 EXPLANATION = ("Theorems C08_* state, for every pair of valid NFAs, that the model of each operation returns a "
                "valid NFA (no error branch) with the textbook language; this run ties the model to the code by "
@@ -83,23 +98,25 @@ def state_mapper(op: str, stA: L.StateEnc, stB):
     return f
 
 
-def oracle(ctx: Ctx, op: str, A: NFA, B, res, case: dict, thorough_equiv: bool = True):
-    """Evaluate the property on the real result.  Returns a dict of language facts."""
+def oracle(ctx: Ctx, op: str, A: NFA, B, res, case: dict, thorough_equiv: bool = True, pre: str = ""):
+    """Evaluate the property on the real result.  Returns a dict of language facts.
+    A, B: the operands the judgement is about (for live objects under the mutable-automata option: their
+    frozen twins, the definitions AS BUILT); `pre`: prefix of the failure text (the call history)."""
     facts = dict(empty=None, universal=None)
     if res[0] == "err":
-        ctx.prop_fail(f"{op} raised {res[1]} on valid operand(s)", dict(case, failure=f"raised {res[1]}"), None)
+        ctx.prop_fail(pre + f"{op} raised {res[1]} on valid operand(s)", dict(case, failure=f"raised {res[1]}"), None)
         return facts
     R = res[1]
     if not isinstance(R, NFA):
-        ctx.prop_fail(f"{op} returned {type(R).__name__}, not an NFA", dict(case, failure="not an NFA"), None)
+        ctx.prop_fail(pre + f"{op} returned {type(R).__name__}, not an NFA", dict(case, failure="not an NFA"), None)
         return facts
     v = call(R.validate)
     if v[0] == "err":
-        ctx.prop_fail(f"{op} returned an NFA that fails validate(): {v[1]}", dict(case, failure=f"invalid result {v[1]}"), None)
+        ctx.prop_fail(pre + f"{op} returned an NFA that fails validate(): {v[1]}", dict(case, failure=f"invalid result {v[1]}"), None)
         return facts
     sigma = set(A.input_symbols) | (set(B.input_symbols) if B is not None else set())
     if set(R.input_symbols) != sigma:
-        ctx.prop_fail(f"{op}: result alphabet {sorted(R.input_symbols)} is not the union of the operand alphabets",
+        ctx.prop_fail(pre + f"{op}: result alphabet {sorted(R.input_symbols)} is not the union of the operand alphabets",
                       dict(case, failure="alphabet"), None)
     bound = L.bound_for(sorted(sigma))
     LR = L.lang_real(R, sigma, bound)
@@ -133,7 +150,7 @@ def oracle(ctx: Ctx, op: str, A: NFA, B, res, case: dict, thorough_equiv: bool =
         got = R.accepts_input(w)
         ops_say = dict(A=A.accepts_input(w)) if B is None else dict(A=A.accepts_input(w), B=B.accepts_input(w))
         if got != exp:
-            ctx.prop_fail(f"{op}: result {'accepts' if got else 'rejects'} {w!r} but the textbook operation "
+            ctx.prop_fail(pre + f"{op}: result {'accepts' if got else 'rejects'} {w!r} but the textbook operation "
                           f"{'contains' if exp else 'does not contain'} it (operands on this word: {ops_say})",
                           dict(case, failure="language", word=w, result_accepts=got, expected=exp), None)
         else:
@@ -155,27 +172,46 @@ def _same_up_to_renaming(impl, mod) -> bool:
         return False
 
 
-def check_op(ctx: Ctx, op: str, A: NFA, B, origin: str):
-    """One case; returns the real result NFA (or None)."""
+def check_op(ctx: Ctx, op: str, A: NFA, B, origin: str, refA=None, refB=None, seq=None):
+    """One case; returns the real result NFA (or None).
+    refA / refB / seq: A and B are LIVE objects under allow_mutable_automata=True on which the sequence `seq` of
+    calls is being made; the real call is made on them, the oracles judge it against their frozen twins refA /
+    refB (the definitions AS BUILT), `seq` is the replay.  The model is asked (with the live iteration orders,
+    taken before the call) only while the live operands still have the definitions they were built with."""
     drv = ctx.driver("drv_nfa_ops")
+    liveA, liveB = A, B
     sigma = set(A.input_symbols) | (set(B.input_symbols) if B is not None else set())
     sy = Names(sorted(sigma))
     encA, stA = L.enc_nfax(A, sy)
     encB, stB = (L.enc_nfax(B, sy) if B is not None else ("", None))
-    res = call(lambda: apply_real(op, A, B))
+    pre, ask_model = "", True
+    if seq is not None:
+        ask_model = not M.drifted(liveA, refA) and (B is None or not M.drifted(liveB, refB))
+        A, B = refA, (refB if B is not None else None)
+        sigma = set(A.input_symbols) | (set(B.input_symbols) if B is not None else set())
+        pre = (f"under allow_mutable_automata=True ({seq['mode']} containers), call {len(seq['steps'])} of the sequence "
+               f"{seq['steps']!r} on the same objects: ")
+    res = call(lambda: apply_real(op, liveA, liveB))
+    case = dict(seq) if seq is not None else dict(op=op, A=repr(A), B=repr(B) if B is not None else None)
+    if not ask_model:
+        ctx.stat("mutable_option_definition_changed")
+        facts = oracle(ctx, op, A, B, res, case, pre=pre)
+        ctx.case(None)
+        ctx.stat(origin)
+        ctx.stat("op_" + op)
+        return res[1] if res[0] == "ok" and isinstance(res[1], NFA) else None
     line = drv.ask(f"NFA_OP {op} {encA} {encB}".strip())
     mod = L.parse_res_nfag(line)
-    case = dict(op=op, A=repr(A), B=repr(B) if B is not None else None)
     if res[0] == "ok" and isinstance(res[1], NFA):
         impl = ("ok", L.plain(res[1], sy, state_mapper(op, stA, stB)))
     elif res[0] == "ok":
         impl = ("ok", repr(res[1]))
     else:
         impl = res
-    facts = oracle(ctx, op, A, B, res, case)
+    facts = oracle(ctx, op, A, B, res, case, pre=pre)
     big = len(A.states) >= 2 and (B is None or len(B.states) >= 2)
     nontrivial = big and facts["empty"] is False and facts["universal"] is False
-    ctx.case((op, encA, encB) if nontrivial else None)
+    ctx.case((op, encA, encB, seq["mode"] if seq else None) if nontrivial else None)
     ctx.stat(origin)
     ctx.stat("op_" + op)
     if res[0] == "err":
@@ -187,7 +223,7 @@ def check_op(ctx: Ctx, op: str, A: NFA, B, origin: str):
         ctx.stat("result_nonempty_upto_bound_" + origin)
     if facts["universal"]:
         ctx.stat("result_universal_upto_bound")
-    if B is A:
+    if liveB is liveA:
         ctx.stat("same_object_both_operands")
     if not A.input_symbols or (B is not None and not B.input_symbols):
         ctx.stat("empty_alphabet_operand")
@@ -357,6 +393,199 @@ def random_tree(ctx: Ctx, rng, depth: int):
     return check_op(ctx, op, X, Y, "composition")
 
 
+# ------------------------------------------------------------------ round 4: the mutable-automata option
+def run_mutable_sequence(ctx: Ctx, refs: list, mode: str, steps: list, origin: str):
+    """allow_mutable_automata=True: live operands built from plain (possibly shared) containers — `refs` are their
+    frozen twins, the definitions AS BUILT — and a SEQUENCE of operations and reads on those same objects.  Steps
+    (JSON lists; i, j index the object list, which starts as the live operands):
+      ["op", name, i, j|null]   the operation on objects i (and j; j == i: the same object on both sides); the
+                                result is judged by the oracles of check_op against the twins and — when it is
+                                right — appended to the object list (its twin: a frozen copy made at once), so
+                                later steps use it as an operand although it may share containers with objects
+                                that are still in use;
+      ["read", i, w]            objects[i].accepts_input(w) against the table semantics of the twin.
+    The sequence stops at the first failing step."""
+    keep: list = []
+    with M.mutable_option():
+        objs = [M.build_live(r, mode, keep) for r in refs]
+        twins = list(refs)
+        ctx.stat(f"mutable_option_sequence_{mode}")
+        if any(M.sharing_of(o) for o in objs):
+            ctx.stat("mutable_option_operand_with_shared_containers")
+        for k, step in enumerate(steps):
+            seq = dict(op="mutable_sequence", objs=[repr(r) for r in refs], mode=mode, steps=[list(x) for x in steps[:k + 1]])
+            n0 = ctx.n_prop_fails
+            if step[0] == "read":
+                _, i, w = step
+                if i >= len(objs):
+                    continue
+                got = call(lambda: objs[i].accepts_input(w))
+                want = L.raw_of(twins[i]).accepts(w)
+                ctx.stat("mutable_option_step_read")
+                if got != ("ok", want):
+                    ctx.prop_fail(f"under allow_mutable_automata=True ({mode} containers), call {k + 1} of the sequence "
+                                  f"{seq['steps']!r} on the same objects: accepts_input({w!r}) of operand {i} is "
+                                  f"{got[1] if got[0] == 'ok' else 'raised ' + got[1]}, its transition tables as built say "
+                                  f"{want}; the operations are judged on the same definitions", dict(seq, word=w), None)
+            else:
+                _, name, i, j = step
+                if i >= len(objs) or (j is not None and j >= len(objs)):
+                    continue          # an earlier step gave no usable result (size cap)
+                if name not in UNARY and j is None:
+                    continue
+                X, X0 = objs[i], twins[i]
+                Y, Y0 = (objs[j], twins[j]) if j is not None and name not in UNARY else (None, None)
+                ctx.stat("mutable_option_step_op")
+                R = check_op(ctx, name, X, Y, origin, refA=X0, refB=Y0, seq=seq)
+                if R is not None and ctx.n_prop_fails == n0 and len(R.states) <= 40:
+                    objs.append(R)
+                    twins.append(M.frozen_twin(R))
+            if ctx.n_prop_fails > n0:
+                return
+        for o, t in zip(objs, twins):
+            if M.drifted(o, t):
+                ctx.stat("mutable_option_definition_changed_at_end")
+                break
+
+
+def _random_steps(rng, refs: list, k: int) -> list:
+    """k steps over a growing object list (every op step is expected to add one object)."""
+    n = len(refs)
+    sigma = sorted(set().union(*[set(r.input_symbols) for r in refs if r is not None]))
+    steps = []
+    for _ in range(k):
+        q = rng.random()
+        if q < 0.15:
+            steps.append(["read", rng.randrange(n), gen.rand_word(rng, sigma, 5) if sigma else ""])
+        elif q < 0.4:
+            steps.append(["op", rng.choice(UNARY), rng.randrange(n), None])
+            n += 1
+        else:
+            name = rng.choice(ALL_BINARY + ["left_quotient", "right_quotient"])   # the quotients twice as often
+            i = rng.randrange(n)
+            j = i if rng.random() < 0.15 else rng.randrange(n)
+            steps.append(["op", name, i, j])
+            n += 1
+    return steps
+
+
+def mutable_option_family(ctx: Ctx, n: int):
+    """Bounded-exhaustive part: every 12th (thorough: every 3rd) 2-state NFA over {a} with ε as A, B = a fixed 2-state
+    operand, built from plain and from aliased containers, the fixed sequence right_quotient, left_quotient (both
+    orders), kleene_star, reverse, union, right_quotient again on the same objects.  Random part: shaped pairs of
+    operands (≤4 states, ε-moves likely, all name pools), all five live modes, 3–6 random steps including steps
+    on earlier results."""
+    rng = ctx.rng
+    fixed = [["op", "right_quotient", 0, 1], ["op", "left_quotient", 0, 1], ["op", "left_quotient", 1, 0],
+             ["op", "kleene_star", 0, None], ["op", "reverse", 0, None], ["op", "union", 0, 1],
+             ["op", "right_quotient", 0, 0], ["op", "right_quotient", 0, 1]]
+    B0 = NFA(states={0, 1}, input_symbols={"a"}, transitions={0: {"a": {1}, "": {1}}, 1: {"a": {1}}}, initial_state=0,
+             final_states={1})
+    twos = list(gen.all_nfas(2, ("a",)))
+    for A0 in twos[::(3 if ctx.thorough() else 12)]:
+        for mode in ("plain", "aliased"):
+            run_mutable_sequence(ctx, [A0, B0], mode, fixed, "mutable_option_exhaustive")
+    ctx.exhaustive("allow_mutable_automata=True: " + ("every 3rd" if ctx.thorough() else "every 12th") + " 2-state NFA over {a} "
+                   "(with ε) against a fixed 2-state operand, built from plain and from aliased containers, 8 operations in a "
+                   "row on the same objects (quotients in both orders, star, reverse, union, A/A, the first quotient again), "
+                   "each result judged against the definitions as built")
+    for _ in range(n):
+        alpha = list(rng.choice(gen.ALPHABETS[:3]))
+        names = gen.name_pool(rng, 4) if rng.random() < 0.3 else None
+
+        def one():
+            q = rng.random()
+            if q < 0.25:
+                return dense_nfa(rng, alpha, 4, list(names) if names else None)
+            if q < 0.55:
+                return M.pooled_nfa(rng, alpha, 4, list(names) if names else None)
+            x = gen.rand_nfa(rng, 4, alphabet=alpha, names=list(names) if names else None,
+                             eps=rng.choice([0.15, 0.35, 0.6, 0.6]))
+            if q > 0.9:
+                x = L.with_junk_rows(rng, x)
+            return more_finals(rng, x) if rng.random() < 0.6 else x
+        refs = [one(), one()]
+        mode = M.pick_mode(rng)
+        run_mutable_sequence(ctx, refs, mode, _random_steps(rng, refs, rng.randint(3, 6)), "mutable_option")
+    # operands that use a few target sets in many places (ONE set object per distinct target set in the aliased
+    # modes) under the operations that edit a working copy of the operand's table: the quotients in both orders and
+    # with the same object on both sides, then two random steps
+    quot = [["op", "right_quotient", 0, 1], ["op", "left_quotient", 0, 1], ["op", "right_quotient", 1, 0],
+            ["op", "left_quotient", 1, 0], ["op", "right_quotient", 0, 0]]
+    for _ in range(max(n // 2, 1)):
+        alpha = list(rng.choice(gen.ALPHABETS[:3]))
+        refs = [M.pooled_nfa(rng, alpha, 4), M.pooled_nfa(rng, alpha, 4, gen.name_pool(rng, 4) if rng.random() < 0.3 else None)]
+        if rng.random() < 0.5:
+            refs.reverse()
+        mode = rng.choice(["aliased", "aliased", "aliased", "copy_of_aliased", "aliased_rows"])
+        run_mutable_sequence(ctx, refs, mode, quot + _random_steps(rng, refs + [None] * 5, 2), "mutable_option_shared_targets")
+
+
+# ------------------------------------------------------------------ round 4: names equal across types
+def renamed(n: NFA, names: list) -> NFA:
+    """The same automaton with its i-th state (in a fixed order) called names[i]."""
+    order = sorted(n.states, key=repr)
+    f = dict(zip(order, names))
+    junk = [k for k in n.transitions if k not in f]
+    for k in junk:
+        f[k] = ("junk", repr(k))
+    return NFA(states={f[q] for q in n.states}, input_symbols=set(n.input_symbols),
+               transitions={f[k]: {a: {f[t] for t in ts} for a, ts in row.items()} for k, row in n.transitions.items()},
+               initial_state=f[n.initial_state], final_states={f[q] for q in n.final_states})
+
+
+def cross_type_names_family(ctx: Ctx, n: int):
+    """State names that are EQUAL ACROSS TYPES (0 == 0.0 == False == Fraction(0) == Decimal(0) == 0j, equal hashes):
+    in a set they are one key whatever the caller wrote, so the name an operation invents (first unused natural
+    number, index in the state order) must be compared by ==, not by type.  Bounded-exhaustive part: every 60th
+    (thorough: 12th) 2-state NFA over {a} renamed into each single-type pool and two mixed ones × the three unary
+    operations (the ones that add a fresh state).  Random part: shaped operands with names from all styles of
+    `names_xtype.xtype_pool` (also with gaps, so that the first free natural is 0 / in the middle / at the end) under
+    all unary and binary operations, the second operand named from the same pool, from another pool or ordinarily;
+    and as leaves of depth-2 compositions (star of reverse of …)."""
+    rng = ctx.rng
+    twos = list(gen.all_nfas(2, ("a",)))
+    pools = [[0.0, 1.0], [X.Fraction(0), X.Fraction(1)], [X.Decimal(0), X.Decimal(1)], [0j, 1 + 0j], [False, True],
+             [1.0, 0], [0, 2.0], [1, X.Fraction(2)]]
+    for A in twos[::(12 if ctx.thorough() else 60)]:
+        for pool in pools:
+            B = renamed(A, pool)
+            for op in UNARY:
+                check_op(ctx, op, B, None, "cross_type_names_exhaustive")
+    ctx.exhaustive(("every 12th" if ctx.thorough() else "every 60th") + " 2-state NFA over {a} with its states renamed to "
+                   "{0.0,1.0}, {Fraction(0),Fraction(1)}, {Decimal(0),Decimal(1)}, {0j,1+0j}, {False,True}, {1.0,0}, {0,2.0}, "
+                   "{1,Fraction(2)} × kleene_star, option, reverse")
+    for _ in range(n):
+        alpha = list(rng.choice(gen.ALPHABETS[:4]))
+        k = rng.randint(1, 4)
+
+        def one(names):
+            q = rng.random()
+            if q < 0.15:
+                return L.degenerate_nfa(rng, alpha, list(names))[1]
+            if q < 0.45 and len(names) >= 2:
+                return dense_nfa(rng, alpha, len(names), list(names))
+            x = gen.rand_nfa(rng, len(names), alphabet=alpha, names=list(names), min_states=len(names))
+            if q > 0.9:
+                x = L.with_junk_rows(rng, x)
+            return more_finals(rng, x) if rng.random() < 0.5 else x
+        na = X.xtype_pool(rng, k)
+        A = one(na)
+        q = rng.random()
+        nb = na if q < 0.3 else X.xtype_pool(rng, rng.randint(1, 4)) if q < 0.7 else gen.name_pool(rng, rng.randint(1, 4))
+        B = one(nb)
+        ctx.stat("cross_type_names_" + ("yes" if X.has_cross_type_name(A.states) else "no"))
+        for op in UNARY:
+            R = check_op(ctx, op, A, None, "cross_type_names")
+            if R is not None and rng.random() < 0.35:             # the result (old names + the invented one) again
+                check_op(ctx, rng.choice(UNARY), R, None, "cross_type_names_composition")
+        for op in rng.sample(ALL_BINARY, 3):
+            if rng.random() < 0.5:
+                check_op(ctx, op, A, B, "cross_type_names")
+            else:
+                check_op(ctx, op, B, A, "cross_type_names")
+
+
 def run(ctx: Ctx):
     rng = ctx.rng
     thorough = ctx.thorough()
@@ -424,6 +653,10 @@ def run(ctx: Ctx):
     # 3. compositions
     for _ in range(ctx.budget(350, 8000)):
         random_tree(ctx, rng, 3)
+    # 3b. round 4: state names equal across types (0 == 0.0 == False == Fraction(0))
+    cross_type_names_family(ctx, ctx.budget(90, 600))
+    # 4. round 4: the mutable-automata option — sequences of operations on the same live objects
+    mutable_option_family(ctx, ctx.budget(120, 600))
     report_budget(ctx)
 
 
@@ -452,15 +685,21 @@ def search(ctx: Ctx):
         random_tree(ctx, rng, 3)
         if ctx.n_prop_fails:
             return
+    mutable_option_family(ctx, ctx.budget(600, 4000))
+    if not ctx.n_prop_fails:
+        cross_type_names_family(ctx, ctx.budget(600, 4000))
 
 
 def replay(ctx: Ctx, path: str) -> int:
     data = json.load(open(path))
     rp = data.get("replay", data)
-    env = {"NFA": NFA, "frozenset": frozenset, "frozendict": dict}
-    A = eval(rp["A"], env)
-    B = eval(rp["B"], env) if rp.get("B") else None
-    check_op(ctx, rp["op"], A, B, "replay")
+    env = dict({"NFA": NFA, "frozenset": frozenset, "frozendict": dict}, **X.EVAL_ENV)
+    if rp.get("op") == "mutable_sequence":
+        run_mutable_sequence(ctx, [eval(x, env) for x in rp["objs"]], rp["mode"], rp["steps"], "replay")
+    else:
+        A = eval(rp["A"], env)
+        B = eval(rp["B"], env) if rp.get("B") else None
+        check_op(ctx, rp["op"], A, B, "replay")
     if ctx.prop_fails:
         print(f"VIOLATION property=C08 replay={path}")
         print("  " + ctx.prop_fails[0]["what"])
